@@ -1,9 +1,11 @@
 // extract: the translator half of the tie between /repo and the Lean model.
 //
 // It type-checks the current working tree of the repository (go/packages, offline) and rewrites
-//   <out>/Tables.lean  — the decision tables of the code as Lean definitions the model *uses*
-//   <out>/Shape.lean   — shape facts (time/number comparison guards, goroutine inventory) that
-//                        Tie.lean compares with what the hand-written model assumes
+//
+//	<out>/Tables.lean  — the decision tables of the code as Lean definitions the model *uses*
+//	<out>/Shape.lean   — shape facts (time/number comparison guards, goroutine inventory) that
+//	                     Tie.lean compares with what the hand-written model assumes
+//
 // Constants are resolved through go/types, rows are sorted, so renames and reordered cases do not
 // change the output while a changed cell, a dropped list entry or a flipped comparison does.
 package main
